@@ -57,6 +57,12 @@ def shapes(k):
         ("sort_by-lambda", "f = n => %s" % nest(k, "sort_by([1, 2], x => f(n + 1))"), "f(0)"),
         ("group_by-fanout", "f = n => %s" % nest(k, "group_by([n + 1, n + 2], f)"), "f(0)"),
         ("count_by-fanout", "f = n => %s" % nest(k, "count_by([n + 1, n + 2], f)"), "f(0)"),
+        # cycles made only of ANONYMOUS functions (a function gets a name only as the direct right-hand
+        # side of an assignment): record fields, list elements, self-application
+        ("anon-record", "m = {f: n => %s}" % nest(k, "m.f(n + 1)"), "m.f(0)"),
+        ("anon-list", "fs = [n => %s, n => %s]" % (nest(k, "fs[1](n + 1)"), nest(k, "fs[0](n * 2)")), "fs[0](0)"),
+        ("anon-self-passing", "m = {f: (self, n) => %s}" % nest(k, "self(self, n + 1)"), "m.f(m.f, 0)"),
+        ("anon-omega", "w = 0", "(g => %s)(g => %s)" % (nest(k, "g(g)"), nest(k, "g(g)"))),
         ("via-fanout", "f = n => %s" % nest(k, "([n + 1, n + 2] via f)[0]"), "f(0)"),
         ("where-fanout", "f = n => %s" % nest(k, "([n + 1, n + 2] where f)"), "f(0)"),
     ]
@@ -110,6 +116,8 @@ def main(argv):
         ("do", "c = n => do {\n  m = n - 1\n  return if n <= 0 then 0 else c(m)\n}", "c(%d)"),
         ("into", "c = n => if n <= 0 then 0 else ((n - 1) into c)", "c(%d)"),
         ("map-of-map", "c = n => if n <= 0 then [0] else map([n - 1], x => map([x], c)[0])[0]", "c(%d)"),
+        ("anon-record", "m = {c: n => if n <= 0 then 0 else 1 + m.c(n - 1)}", "m.c(%d)"),
+        ("anon-self-passing", "m = {c: (self, n) => if n <= 0 then 0 else 1 + self(self, n - 1)}", "m.c(m.c, %d)"),
         ("some", "c = n => if n <= 0 then false else some([n - 1], c)", "c(%d)"),
         ("sort_by", "c = n => if n <= 0 then 0 else sort_by([0, n - 1], c)[1]", "c(%d)"),
         ("group_by", "c = n => if n <= 0 then \"z\" else keys(group_by([n - 1], c))[0]", "c(%d)"),
